@@ -308,4 +308,63 @@ def opKey (op : Op) : Nat × Nat := (op.route, op.send)
 def issueOps (cfg : Cfg) (multiple index : Nat) (ops : List Op) : List (Packet Op) :=
   issue (estimate cfg multiple) opKey multiple cfg.reqMin cfg.rpyMin index ops
 
+/-! ### the caller's operation dicts
+
+`issue` works on `op = op.copy()`: it pops 'method', pins 'offset' (None / 0 by `fragment`) for reads
+and writes that carry none, and stores 'sender_context' - all in its own copy.  `RawOp` is the dict as
+the caller holds it; `workOn` is what those statements do to the dict they are applied to;
+`callerAfter true` is the code (the caller's dicts are untouched), `callerAfter false` the variant
+without the copy (kept for the witness). -/
+
+structure RawOp where
+  method : Option Method := none       -- the 'method' entry, if any
+  hasData : Bool := false              -- 'data' in op
+  offset : Option (Option Nat) := none -- the 'offset' entry: absent / None / a byte offset
+  ctx : Bool := false                  -- 'sender_context' in op
+  tagType : Option Nat := none
+  ndata : Nat := 0
+  elements : Option Nat := none
+  dataSize : Option Nat := none
+  route : Nat := 0
+  send : Nat := 0
+  ident : Nat := 0
+deriving DecidableEq, Repr
+
+/-- `op.pop( 'method', 'write' if 'data' in op else 'read' )` -/
+def RawOp.resolve (r : RawOp) : Method :=
+  match r.method with
+  | some m => m
+  | none => if r.hasData then Method.write else Method.read
+
+/-- the statements of `issue` that alter the dict they work on -/
+def workOn (fragment : Bool) (r : RawOp) : RawOp :=
+  let m := r.resolve
+  { r with
+    ctx := true
+    method := none
+    offset := if (m = Method.read ∨ m = Method.write) ∧ r.offset = none
+              then some (if fragment then some 0 else none) else r.offset }
+
+/-- the operation `issue` acts on (after its own alterations) -/
+def RawOp.toOp (fragment : Bool) (r : RawOp) : Op :=
+  { method := r.resolve, tagType := r.tagType, ndata := r.ndata, elements := r.elements,
+    dataSize := r.dataSize, offset := (workOn fragment r).offset, route := r.route, send := r.send,
+    ident := r.ident }
+
+/-- the caller's list after `issue` ran over it -/
+def callerAfter (copy : Bool) (fragment : Bool) (ops : List RawOp) : List RawOp :=
+  if copy then ops else ops.map (workOn fragment)
+
+/-- one setting of a run -/
+structure Pass where
+  via : Nat            -- 0 synchronous, 1 pipeline, 2 operate
+  depth : Int
+  multiple : Nat
+  fragment : Bool
+
+/-- the operations each pass of a sequence of runs over the SAME list object acts on -/
+def passOps (copy : Bool) : List RawOp → List Pass → List (List Op)
+  | _, [] => []
+  | ops, p :: ps => ops.map (RawOp.toOp p.fragment) :: passOps copy (callerAfter copy p.fragment ops) ps
+
 end Cpppo.Client
